@@ -212,13 +212,15 @@ class Merge(Expr):
                 return (min(divisions), max(divisions))
             return divisions
 
+        # The index of one side only survives if the other side is joined
+        # through its index; joining columns on columns creates a new index
+        use_left = self.right_index or _contains_index_name(
+            self.right._meta, self.right_on
+        )
+        use_right = self.left_index or _contains_index_name(
+            self.left._meta, self.left_on
+        )
         if self._is_single_partition_broadcast:
-            use_left = self.right_index or _contains_index_name(
-                self.right._meta, self.right_on
-            )
-            use_right = self.left_index or _contains_index_name(
-                self.left._meta, self.left_on
-            )
             if (
                 use_right
                 and self.left.npartitions == 1
@@ -240,12 +242,14 @@ class Merge(Expr):
                 self.broadcast_side == "left"
                 and set(self.right._meta.index.names) == meta_index_names
             ):
-                return self._bcast_right._divisions()
+                divisions = self._bcast_right._divisions()
+                return divisions if use_right else (None,) * len(divisions)
             elif (
                 self.broadcast_side == "right"
                 and set(self.left._meta.index.names) == meta_index_names
             ):
-                return self._bcast_left._divisions()
+                divisions = self._bcast_left._divisions()
+                return divisions if use_left else (None,) * len(divisions)
             _npartitions = max(self.left.npartitions, self.right.npartitions)
 
         else:
